@@ -411,8 +411,9 @@ class Check:
             if len(ev["samples"]) < 4 and (ev["evaluations"] % 97 == 1):
                 ev["samples"].append({"case": case, "impl": res})
             self.distribution(case, res, ev["dist"])
-            if model is not None:
-                mres = self.decode(case, model.query(self.encode(case)))
+            enc = self.encode(case) if model is not None else None
+            if enc is not None:
+                mres = self.decode(case, model.query(enc))
                 ev["corr_compared"] += 1
                 if canon(mres) != canon(res):
                     if len(diffs) < 50:
